@@ -251,6 +251,11 @@ type C19Exp struct {
 	// 0 nothing (fresh value), 1 the same record (read twice into one variable), 2 a longer unrelated record,
 	// 3 the leftovers of a read that failed on a truncated copy of the file
 	Receiver int `json:"receiver,omitempty"`
+	// Reused: the trial values first held another record (the same generations with the opposite solved flags) and were asked
+	// for their statistics (through the accessors that keep nothing: not the winner statistics, whose winner generation is a
+	// public, documented cache field); then their Generations field received the record under check, as Trial.Decode does
+	// with a trial variable that is used again
+	Reused bool `json:"trial_values_used_before,omitempty"`
 }
 
 // expAccessors: every accessor of the experiment and of its trials, as calls whose results are discarded
@@ -296,6 +301,7 @@ func genC19Exp() *rapid.Generator[C19Exp] {
 		if rapid.Bool().Draw(t, "used receiver") {
 			c.Receiver = rapid.IntRange(1, 3).Draw(t, "receiver kind")
 		}
+		c.Reused = rapid.IntRange(0, 3).Draw(t, "trial values used before") == 0
 		return c
 	})
 }
@@ -326,6 +332,42 @@ func firstSolved(t TrialSpec) *GenSpec {
 
 func CheckC19Exp(c C19Exp, rec *Rec) (err error) {
 	e := c.Exp.Build()
+	if c.Reused {
+		other := c.Exp
+		other.Trials = append([]TrialSpec{}, c.Exp.Trials...)
+		for i := range other.Trials {
+			gs := append([]GenSpec{}, other.Trials[i].Generations...)
+			for j := range gs {
+				gs[j].Solved = !gs[j].Solved
+			}
+			other.Trials[i].Generations = gs
+		}
+		used := other.Build()
+		if _, err := call("accessors of the record held before", func() int {
+			used.TrialsSolved()
+			used.SuccessRate()
+			used.Solved()
+			used.BestFitness()
+			used.BestComplexity()
+			used.AvgDiversity()
+			used.EpochsPerTrial()
+			for i := range used.Trials {
+				used.Trials[i].Solved()
+				used.Trials[i].Average()
+				used.Trials[i].ChampionsFitness()
+				used.Trials[i].Diversity()
+				used.Trials[i].BestOrganism(true)
+			}
+			return 0
+		}); err != nil {
+			return err
+		}
+		for i := range used.Trials {
+			used.Trials[i].Generations = e.Trials[i].Generations
+		}
+		e = used
+		rec.Class("trial values that held another record before")
+	}
 	for _, w := range c.Warm {
 		if _, err := call("accessor", func() int { expAccessors[w%len(expAccessors)](e); return 0 }); err != nil {
 			return fmt.Errorf("warm-up call %d: %v", w, err)
